@@ -40,6 +40,9 @@ pub enum SOp {
     /// ten decode-level changes in a row: more than a session's command queue holds, so every
     /// session (also one that is still in its TLS handshake) has to keep consuming them
     DecodeBurst(Decode),
+    /// plain TCP with small socket buffers: the connection pipelines several hundred requests
+    /// and never reads the replies, so that its session blocks in the middle of writing one
+    FloodNoRead(u8),
     /// TLS server: a TCP connection that sends plaintext instead of a ClientHello: accepted (the
     /// oldest session goes if the server is full) and then closed. Plain TCP: connect + garbage.
     HandshakeGarbage,
@@ -53,6 +56,10 @@ pub struct C15Case {
     /// the server is a TLS server (create_tls_server_task) and the connections are TLS sessions
     #[serde(default)]
     pub tls: bool,
+    /// plain TCP only: server sockets with a 4 KiB send buffer (set on the listening socket the
+    /// harness hands over), peers with a 4 KiB receive buffer
+    #[serde(default)]
+    pub small_buffers: bool,
 }
 
 pub fn arb_c15() -> BoxedStrategy<C15Case> {
@@ -64,18 +71,20 @@ pub fn arb_c15() -> BoxedStrategy<C15Case> {
         2 => any::<u8>().prop_map(SOp::HalfFrame),
         1 => arb_decode_any().prop_map(SOp::SetDecode),
         1 => arb_decode_any().prop_map(SOp::DecodeBurst),
+        2 => any::<u8>().prop_map(SOp::FloodNoRead),
         2 => (0u8..3).prop_map(SOp::StalledHandshake),
         1 => Just(SOp::HandshakeGarbage),
     ];
     (
         prop::bool::weighted(0.4),
+        any::<bool>(),
         0u8..=4,
         arb_decode_any(),
         vec(op, 3..22),
         prop_oneof![2 => Just(None), 1 => Just(Some(SOp::Shutdown)), 1 => Just(Some(SOp::DropHandle))],
         0usize..6,
     )
-        .prop_map(|(tls, max_sessions, decode, mut ops, end, extra)| {
+        .prop_map(|(tls, small, max_sessions, decode, mut ops, end, extra)| {
             if let Some(e) = end {
                 ops.push(e);
                 // operations after the end: everything must stay closed
@@ -88,6 +97,7 @@ pub fn arb_c15() -> BoxedStrategy<C15Case> {
                 decode,
                 ops,
                 tls,
+                small_buffers: small && !tls,
             }
         })
         .boxed()
@@ -112,6 +122,32 @@ enum Conn {
     Dead,
     /// TLS only: accepted by the server, handshake never completed; cannot be probed
     Stalled,
+    /// its session is blocked writing replies nobody reads; cannot be probed
+    Blocked,
+    /// was Blocked when the server had to close it: the close must be visible WITHOUT the peer
+    /// reading anything (a peer that does not read is exactly what eviction is for)
+    DeadBlocked,
+}
+
+/// wait for hang-up / reset on a socket without reading from it
+async fn wait_hup(fd: i32, wait: Duration) -> bool {
+    let t0 = std::time::Instant::now();
+    while t0.elapsed() < wait {
+        let mut p = libc::pollfd {
+            fd,
+            events: libc::POLLRDHUP | libc::POLLHUP | libc::POLLERR,
+            revents: 0,
+        };
+        let r = unsafe { libc::poll(&mut p, 1, 0) };
+        if r > 0 && (p.revents & (libc::POLLRDHUP | libc::POLLHUP | libc::POLLERR)) != 0 {
+            if std::env::var("VERIF_DEBUG").is_ok() {
+                eprintln!("[c15] hang-up on fd {} after {:?}: revents {:#x}", fd, t0.elapsed(), p.revents);
+            }
+            return true;
+        }
+        tokio::time::sleep(Duration::from_millis(5)).await;
+    }
+    false
 }
 
 
@@ -124,7 +160,15 @@ fn run_once(case: &C15Case, slow: u32) -> CaseResult {
     let settle = Duration::from_millis(15 * slow as u64);
     let wait = Duration::from_millis(1500 * slow as u64);
     rt.block_on(async move {
-        let listener = TcpListener::bind("127.0.0.1:0").await.map_err(|e| format!("INFRA: bind: {}", e))?;
+        let listener = if case.small_buffers {
+            let lsock = tokio::net::TcpSocket::new_v4().map_err(|e| format!("INFRA: socket {}", e))?;
+            let _ = lsock.set_send_buffer_size(4096);
+            let _ = lsock.set_reuseaddr(true);
+            lsock.bind("127.0.0.1:0".parse().unwrap()).map_err(|e| format!("INFRA: bind: {}", e))?;
+            lsock.listen(16).map_err(|e| format!("INFRA: listen: {}", e))?
+        } else {
+            TcpListener::bind("127.0.0.1:0").await.map_err(|e| format!("INFRA: bind: {}", e))?
+        };
         let addr = listener.local_addr().unwrap();
         let map = ServerHandlerMap::single(UnitId::new(1), Sentinel.wrap());
         let (handle, task) = if case.tls {
@@ -160,6 +204,8 @@ fn run_once(case: &C15Case, slow: u32) -> CaseResult {
         let limit = (case.max_sessions as usize).max(1);
 
         let mut conns: Vec<(Link, Conn)> = Vec::new();
+        // raw descriptors of the plain TCP connections (-1 otherwise), for hang-up polling
+        let mut fds: Vec<i32> = Vec::new();
         // model: accept order of sessions the server still tracks
         let mut tracked: Vec<usize> = Vec::new();
         let mut server_up = true;
@@ -171,7 +217,17 @@ fn run_once(case: &C15Case, slow: u32) -> CaseResult {
         for (opi, op) in case.ops.iter().enumerate() {
             match op {
                 SOp::Connect | SOp::StalledHandshake(_) | SOp::HandshakeGarbage => {
-                    let r = tokio::time::timeout(wait, TcpStream::connect(addr)).await;
+                    let r = if case.small_buffers {
+                        match tokio::net::TcpSocket::new_v4() {
+                            Ok(sock) => {
+                                let _ = sock.set_recv_buffer_size(4096);
+                                tokio::time::timeout(wait, sock.connect(addr)).await
+                            }
+                            Err(e) => Ok(Err(e)),
+                        }
+                    } else {
+                        tokio::time::timeout(wait, TcpStream::connect(addr)).await
+                    };
                     let mut s = match r {
                         Ok(Ok(s)) => s,
                         Ok(Err(_)) | Err(_) => {
@@ -183,6 +239,10 @@ fn run_once(case: &C15Case, slow: u32) -> CaseResult {
                         }
                     };
                     let _ = s.set_nodelay(true);
+                    let raw_fd = {
+                        use std::os::fd::AsRawFd;
+                        s.as_raw_fd()
+                    };
                     // what the connection becomes if the server takes it
                     let (link, state): (Option<Link>, Conn) = match (op, case.tls) {
                         (SOp::StalledHandshake(kind), true) => {
@@ -226,7 +286,12 @@ fn run_once(case: &C15Case, slow: u32) -> CaseResult {
                             if conns[oldest].1 == Conn::Stalled {
                                 labels.insert("evicted_mid_handshake", ());
                             }
-                            conns[oldest].1 = Conn::Dead;
+                            if conns[oldest].1 == Conn::Blocked {
+                                labels.insert("evicted_mid_write", ());
+                                conns[oldest].1 = Conn::DeadBlocked;
+                            } else {
+                                conns[oldest].1 = Conn::Dead;
+                            }
                             evictions += 1;
                         }
                         match link {
@@ -235,6 +300,7 @@ fn run_once(case: &C15Case, slow: u32) -> CaseResult {
                                     tracked.push(conns.len());
                                 }
                                 conns.push((l, state));
+                                fds.push(if case.tls { -1 } else { raw_fd });
                             }
                             None => {
                                 return Err(format!("op {}: TLS handshake with the running server failed", opi));
@@ -244,6 +310,7 @@ fn run_once(case: &C15Case, slow: u32) -> CaseResult {
                         // the listener may linger in the kernel for a moment; the connection
                         // must never be served
                         conns.push((l, Conn::Dead));
+                        fds.push(if case.tls { -1 } else { raw_fd });
                     } else {
                         labels.insert("connect_refused_after_shutdown", ());
                     }
@@ -314,7 +381,7 @@ fn run_once(case: &C15Case, slow: u32) -> CaseResult {
                         continue;
                     }
                     let i = *i as usize % conns.len();
-                    if conns[i].1 != Conn::Dead && conns[i].1 != Conn::Stalled {
+                    if conns[i].1 != Conn::Dead && conns[i].1 != Conn::Stalled && conns[i].1 != Conn::Blocked {
                         if tracked.len() >= 2 {
                             garbage_with_two_live = true;
                         }
@@ -345,6 +412,42 @@ fn run_once(case: &C15Case, slow: u32) -> CaseResult {
                         }
                         conns[i].1 = Conn::Dead;
                         tracked.retain(|x| *x != i);
+                    }
+                }
+                SOp::FloodNoRead(i) => {
+                    if conns.is_empty() || !case.small_buffers {
+                        continue;
+                    }
+                    let i = *i as usize % conns.len();
+                    if conns[i].1 == Conn::Live {
+                        // the sentinel handler serves one register: 40000 small requests give
+                        // 440 KB of replies against 4 KiB socket buffers on both sides
+                        let mut buf = Vec::new();
+                        for k in 0..40_000u32 {
+                            buf.extend_from_slice(&mbap_frame(k as u16, 1, &[3, 0, 0, 0, 1]));
+                        }
+                        // the write itself blocks once everything is full: bound it
+                        let _ = tokio::time::timeout(Duration::from_millis(300 * slow as u64), conns[i].0.write_all(&buf)).await;
+                        conns[i].1 = Conn::Blocked;
+                        labels.insert("session_blocked_in_write", ());
+                        // wait until nothing moves any more: the session is then blocked for good
+                        // (bytes queued for us stop growing for 100 ms)
+                        let mut last = -1i32;
+                        let mut same = 0;
+                        for _ in 0..100 {
+                            let mut n: libc::c_int = 0;
+                            unsafe { libc::ioctl(fds[i], libc::FIONREAD, &mut n) };
+                            if n == last {
+                                same += 1;
+                                if same >= 5 {
+                                    break;
+                                }
+                            } else {
+                                same = 0;
+                                last = n;
+                            }
+                            tokio::time::sleep(Duration::from_millis(20)).await;
+                        }
                     }
                 }
                 SOp::HalfFrame(i) => {
@@ -398,6 +501,11 @@ fn run_once(case: &C15Case, slow: u32) -> CaseResult {
                         if c.1 == Conn::Stalled {
                             labels.insert("stopped_mid_handshake", ());
                         }
+                        if c.1 == Conn::Blocked {
+                            labels.insert("stopped_mid_write", ());
+                            c.1 = Conn::DeadBlocked;
+                            continue;
+                        }
                         c.1 = Conn::Dead;
                     }
                     tracked.clear();
@@ -411,6 +519,11 @@ fn run_once(case: &C15Case, slow: u32) -> CaseResult {
                         }
                         if c.1 == Conn::Stalled {
                             labels.insert("stopped_mid_handshake", ());
+                        }
+                        if c.1 == Conn::Blocked {
+                            labels.insert("stopped_mid_write", ());
+                            c.1 = Conn::DeadBlocked;
+                            continue;
                         }
                         c.1 = Conn::Dead;
                     }
@@ -458,9 +571,25 @@ fn run_once(case: &C15Case, slow: u32) -> CaseResult {
                         }
                         conns[i].1 = Conn::Live;
                     }
-                    Conn::Stalled => {}
+                    Conn::Stalled | Conn::Blocked => {}
+                    Conn::DeadBlocked => {
+                        if !wait_hup(fds[i], wait).await {
+                            return Err(format!(
+                                "after op {} ({:?}): connection {} (its session is blocked writing replies the peer does not read) should have been closed by the server (limit {}, tracked {:?}, server up {}) but no hang-up or reset arrived within {:?}",
+                                opi, op, i, limit, tracked, server_up, wait
+                            ));
+                        }
+                        conns[i].1 = Conn::Dead;
+                    }
                     Conn::Dead => {
                         let mut r = expect_closed(&mut conns[i].0, wait).await;
+                        // replies nobody read may still be on their way: drain them
+                        if case.small_buffers {
+                            let t0 = tokio::time::Instant::now();
+                            while matches!(r, Probe::Unexpected(_)) && t0.elapsed() < wait * 3 {
+                                r = expect_closed(&mut conns[i].0, wait).await;
+                            }
+                        }
                         // a TLS server may send an alert record (content type 21) on a connection
                         // that never became a TLS session before it closes it
                         if case.tls {
